@@ -43,10 +43,17 @@ TRUSTED = ["float32 arithmetic of upgma/nj modelled as exact rational arithmetic
            "np.allclose modelled by its documented formula"]
 ASSUMPTIONS = ["'neighbour joining recovers every additive metric' is not a Lean theorem; it is checked by the oracle on "
                "random trees -> additive matrices (exact dyadic stream and float stream)"]
-LEVEL_TEXT = ("Lean theorems for all inputs on the executable model: UPGMA/NJ leaves = every index exactly once, UPGMA "
-              "ultrametric + merge height = half average linkage, distance/LCA = explicit path sums, as_binary keeps "
-              "all leaf-to-leaf distances, copy, Newick round trip under LabelsOk; model tied to the Cython code by the "
-              "correspondence stream. Partial: NJ additivity recovery is oracle-checked only.")
+LEVEL_TEXT = ("Lean theorems for all inputs on the executable model (16, no sorry): UPGMA and NJ leaves = every index "
+              "exactly once (loop invariant + termination, NJ incl. the three-way join); UPGMA merge height = half the "
+              "average linkage of the merged clusters (invariant: matrix entry of two live clusters = mean of the "
+              "original distances over their leaf pairs), every leaf under a node at distance height(node), no negative "
+              "branch; distance_to/get_distance = explicit downward path sums through the LCA, LCA = longest common "
+              "prefix; as_binary(Tree) is binary, keeps the leaf order and the whole leaf-to-leaf distance matrix; copy; "
+              "Newick round trip for any arity, labels None or LabelsOk, with and without distances, under arbitrary "
+              "injected whitespace, for any branch-length codec with parse(show d) = d; three defect witnesses. The "
+              "model is tied to the Cython code by the correspondence stream. Oracle-only (partial): NJ recovers every "
+              "additive metric; the compositional distance matrix T.rows used by the as_binary theorem is not linked to "
+              "distance_to inside Lean (both are tied to the code by the correspondence and the oracle).")
 LEVEL_NOTE = "float32 rounding, Python float formatting/parsing and numpy validation helpers are modelled, not verified"
 TECHNIQUE = "Lean 4 proof (loop invariants over the merge loop, structural induction over rose trees) + correspondence"
 
